@@ -1048,6 +1048,29 @@ def _rule_regexes(lcls, lenv):
     return out
 
 
+_ACTION_GLOBALS = {}     # module-level constants of the lexer module, by value (a named constant such as KILO_MULTIPLIER = 1 << 10 is a spelling)
+
+
+def _module_constants(tree, env):
+    out = {}
+    if tree is None or env is None:
+        return out
+    for n in tree.body:
+        tgt = None
+        if isinstance(n, ast.Assign) and len(n.targets) == 1 and isinstance(n.targets[0], ast.Name):
+            tgt, val = n.targets[0].id, n.value
+        elif isinstance(n, ast.AnnAssign) and isinstance(n.target, ast.Name) and n.value is not None:
+            tgt, val = n.target.id, n.value
+        if tgt:
+            try:
+                v = env.eval(val)
+            except Exception:  # noqa: BLE001
+                continue
+            if isinstance(v, (int, str, bytes, bool, float, tuple)):
+                out[tgt] = v
+    return out
+
+
 def _run_action(fn_node, text):
     """value a rule's action gives to the matched text (the method body run on a stand-in token); None where it raises"""
     import copy
@@ -1061,7 +1084,7 @@ def _run_action(fn_node, text):
     ast.fix_missing_locations(mod)
     ns = {}
     try:
-        exec(compile(mod, "<rule>", "exec"), {"__builtins__": dict(_SAFE_BUILTINS)}, ns)  # noqa: S102
+        exec(compile(mod, "<rule>", "exec"), {"__builtins__": dict(_SAFE_BUILTINS), **_ACTION_GLOBALS}, ns)  # noqa: S102
         tok = types.SimpleNamespace(value=text, type=fn.name)
         r = ns[fn.name](types.SimpleNamespace(lineno=1, index=0), tok)
         return None if r is None else r.value
@@ -1091,6 +1114,8 @@ def _gen_lexer_probes(lcls, lenv, meta):
         except Exception as exc:  # noqa: BLE001
             meta["ignore_error"] = str(exc)
         rules = _rule_regexes(lcls, lenv)
+        _ACTION_GLOBALS.clear()
+        _ACTION_GLOBALS.update(_module_constants(getattr(lenv, "tree", None), lenv))
     out.append("/-- `BDLexer.literals`: single characters that are their own token type (sorted) -/")
     out.append("def literals : List String := [" + ", ".join(lstr(x) for x in lits) + "]")
     out.append("/-- `BDLexer.ignore`: characters skipped between tokens (sorted) -/")
